@@ -267,12 +267,25 @@ def model_build():
 
 
 def closure_files(prop_file):
-    """the .v files properties/<id>.v depends on (transitively), from coqdep"""
-    rc, out = sh(f"coqdep -f _CoqProject -sort {prop_file} 2>/dev/null", cwd=COQ)
-    # -sort prints .vo files in dependency order
-    files = [x[:-1] if x.endswith(".vo") else x for x in out.split()]
-    files = [re.sub(r"\.vo$", ".v", f) for f in out.split()]
-    return [f for f in files if os.path.exists(os.path.join(COQ, f))]
+    """the project .v files properties/<id>.v depends on (transitively, itself included), from coqdep"""
+    rc, out = sh("coqdep -f _CoqProject 2>/dev/null", cwd=COQ)
+    deps = {}
+    for line in out.replace("\\\n", " ").splitlines():
+        if ":" not in line:
+            continue
+        lhs, rhs = line.split(":", 1)
+        targets = [t for t in lhs.split() if t.endswith(".vo")]
+        ds = [d[:-1] for d in rhs.split() if d.endswith(".vo") and not d.startswith("/")]
+        for t in targets:
+            deps[t[:-1]] = ds
+    seen, todo = [], [prop_file]
+    while todo:
+        f = todo.pop()
+        if f in seen:
+            continue
+        seen.append(f)
+        todo.extend(deps.get(f, []))
+    return sorted(f for f in seen if os.path.exists(os.path.join(COQ, f)))
 
 
 def count_qed(files):
